@@ -2,7 +2,8 @@
 # seed_confirm.sh <seed-id> <property> <dir-with patch.diff demo.rs notes.md>
 # Confirms in a scratch worktree of /repo HEAD: patch applies, full suite green with it, demo fails with it and passes without it.
 set -u
-ID=$1; PROP=$2; SRC=$3
+ID=$1; PROP=$2; SRC=$3; FEAT=${4:-}
+FARG=""; [ -n "$FEAT" ] && FARG="--features $FEAT"
 WT=/tmp/wt-confirm
 if [ ! -d $WT ]; then git -C /repo worktree add --detach $WT HEAD -q || exit 3; fi
 cd $WT && git checkout -q --detach $(git -C /repo rev-parse HEAD) && git checkout -- . && rm -f tests/demo_*.rs
@@ -11,14 +12,15 @@ git apply --check $SRC/patch.diff || { echo "PATCH DOES NOT APPLY"; exit 3; }
 git apply $SRC/patch.diff
 echo "== full suite with patch"
 cargo test --offline --workspace --no-fail-fast >/tmp/seed-$ID-suite.log 2>&1; S1=$?
+if [ -n "$FEAT" ]; then cargo test --offline $FARG --lib >/tmp/seed-$ID-suite2.log 2>&1 || S1=1; fi
 grep -E "^test result|FAILED|failed" /tmp/seed-$ID-suite.log | head -8
 cp $SRC/demo.rs tests/demo_seed.rs
 echo "== demo with patch (expect failure)"
-cargo test --offline --test demo_seed >/tmp/seed-$ID-demo1.log 2>&1; D1=$?
+cargo test --offline $FARG --test demo_seed -- --test-threads=1 >/tmp/seed-$ID-demo1.log 2>&1; D1=$?
 grep -E "^test result" /tmp/seed-$ID-demo1.log
 git checkout -- src Cargo.toml 2>/dev/null; git checkout -- .
 echo "== demo without patch (expect pass)"
-cargo test --offline --test demo_seed >/tmp/seed-$ID-demo0.log 2>&1; D0=$?
+cargo test --offline $FARG --test demo_seed -- --test-threads=1 >/tmp/seed-$ID-demo0.log 2>&1; D0=$?
 grep -E "^test result" /tmp/seed-$ID-demo0.log
 rm -f tests/demo_seed.rs
 echo "suite_with_patch_rc=$S1 demo_with_patch_rc=$D1 demo_clean_rc=$D0"
